@@ -33,8 +33,36 @@ func init() {
 		rest := sched.FairSeed(nodesOf(n+1), steps, 5)
 		asked := map[int]int{n: 0}
 		var out []sched.Action
+		if second == 3 {
+			// "ffjoin:n:at:steps:<minAnchor>:srv:3": a second join (key n+1, no fast-sync) is requested two steps
+			// after the first, so that two changes are pending at the anchor; the first joiner fast-forwards as soon
+			// as a peer offers an anchor with index >= minAnchor; a third join (key n+2) is requested 30 steps later.
+			minAnchor := ffpos
+			var o2 []sched.Action
+			o2 = append(o2, sched.FairSeed(nodesOf(n), 9, 0)...)
+			o2 = append(o2, sched.Action{K: "Start", A: n + 1, B: 1}, sched.Action{K: "J", A: n + 1, B: 1})
+			asked[n+1] = 1
+			third := false
+			for i, a := range sched.FairSeed(nodesOf(n), steps, 4) {
+				o2 = append(o2, sched.Action{K: "FF", A: n, B: server, Lim: minAnchor})
+				if i%3 == 0 {
+					o2 = append(o2, sched.Action{K: "G", A: n, B: i % n}, sched.Action{K: "G", A: n + 1, B: (i + 1) % n})
+				}
+				if i == 8*minAnchor+20 && !third {
+					third = true
+					o2 = append(o2, sched.Action{K: "Start", A: n + 2, B: 0}, sched.Action{K: "J", A: n + 2, B: 0})
+					asked[n+2] = 0
+				}
+				if third && i%3 == 1 {
+					o2 = append(o2, sched.Action{K: "G", A: n + 2, B: i % n})
+				}
+				o2 = append(o2, a)
+			}
+			return &sched.Scenario{Cfg: sim.Config{N: n}, Seed: append(seed, o2...), Asked: asked}
+		}
 		for i, a := range rest {
-			if i == ffpos {
+			if i >= ffpos {
+				// at the first opportunity at/after p (a no-op error while the joiner is not catching up, and after it has reset)
 				out = append(out, sched.Action{K: "FF", A: n, B: server})
 			}
 			if second == 1 && i == ffpos+6 {
@@ -97,7 +125,12 @@ func init() {
 				}
 			}
 		}
+		var e2 []sched.Item
+		for minAnchor := 1; minAnchor <= 9; minAnchor++ {
+			e2 = append(e2, item(fmt.Sprintf("ffjoin:3:5:150:%d:0:3", minAnchor)))
+		}
 		add("joiner (3->4) fast-forwards at seed position p (p=20..100) from {best, node 0..2}", a)
+		add("two joins requested nine steps apart (different blocks, overlapping activation windows) (3->4->5), the first joiner fast-forwards from the first anchor with index >= k (k=1..9), then a third join (->6)", e2)
 		add("same, followed by a second join (4->5) six steps after the fast-forward", b)
 		add("joiner (4->5) fast-forwards at p, then validator 3 leaves", c2)
 		add("validator 3 of 4 crashes, restarts empty with fast-sync at p and fast-forwards", d)
